@@ -205,8 +205,8 @@ func (cf *mcWbCfg) passes(user []byte, romon bool) bool {
 }
 
 func mcWbUsers(r *vRng, cf *mcWbCfg) [][]byte {
-	us := [][]byte{[]byte("toms"), []byte("andris"), []byte("admin01"), []byte("a"), []byte("Z"), []byte("a-b"), []byte("x#y.z@w_0")}
-	for _, n := range []int{1, 3, 4, 17, 100, 218, 219, 220, 221, 222, 223, 230, 252, 253} {
+	us := [][]byte{[]byte("toms"), []byte("andris"), []byte("admin01"), []byte("a"), []byte("Z"), []byte("a-b"), []byte("x#y.z@w_0"), []byte("ab"), []byte("01")}
+	for _, n := range []int{1, 2, 3, 4, 17, 100, 218, 219, 220, 221, 222, 223, 230, 252, 253} {
 		us = append(us, mcWbUser(r, n))
 	}
 	if cf.rx.kind == 1 {
@@ -253,6 +253,12 @@ func mcRunWbC14(e *mcEnv) {
 				bad(mcWbEncode(raw, key, 2+byte(r.Intn(254))), "parity above 1")
 				bad(mcWbEncode(raw, nz(31), par), "31-byte key")
 				bad(mcWbEncode(raw, nz(33), par), "33-byte key")
+				if len(u) == 2 {
+					for _, c := range []byte{'_', '.', '-', ' ', 0x80} {
+						bad(mcWbEncode(mcCat([]byte{c, u[1]}, raw[2:]), key, par), "first byte of a two-byte username "+strconv.Quote(string(c)))
+						bad(mcWbEncode(mcCat([]byte{u[0], c}, raw[2:]), key, par), "last byte of a two-byte username "+strconv.Quote(string(c)))
+					}
+				}
 				if len(u) >= 3 {
 					for _, c := range []byte{'_', '.', ' ', '+', 0x80, '/'} {
 						v := append([]byte(nil), u...)
@@ -635,7 +641,10 @@ func (cf *mcRdpCfg) passes(m *mcRdp) bool {
 
 func mcRunRdpC14(e *mcEnv) {
 	r := e.rng
-	for _, cf := range mcRdpCfgs(e) {
+	for ci, cf := range mcRdpCfgs(e) {
+		if ci == 0 {
+			mcRunRdpSweep(e, cf)
+		}
 		noFilter := cf.hash == "" && cf.hashRx.kind == 0 && len(cf.ips) == 0 && len(cf.ports) == 0 && cf.info == "" && cf.infoRx.kind == 0
 		ipOnly := cf.hash == "" && cf.hashRx.kind == 0 && cf.info == "" && cf.infoRx.kind == 0 && !noFilter
 		reps := e.n / 12
@@ -681,7 +690,9 @@ func mcRunRdpC14(e *mcEnv) {
 					mut("negreq length", func(x *mcRdp) { x.neg = append([]byte(nil), x.neg...); x.neg[2] = []byte{0, 7, 9, 36}[r.Intn(4)] })
 					mut("negreq length high byte", func(x *mcRdp) { x.neg = append([]byte(nil), x.neg...); x.neg[3] = 1 })
 					mut("negreq unknown flag", func(x *mcRdp) { x.neg = mcRdpNeg(x.flags|[]byte{4, 0x10, 0x20, 0x40, 0x80}[r.Intn(5)], x.protos) })
-					mut("negreq unknown protocol", func(x *mcRdp) { x.neg = mcRdpNeg(x.flags, x.protos|[]uint32{0x20, 0x100, 0x10000, 0x80000000}[r.Intn(4)]) })
+					mut("negreq unknown protocol", func(x *mcRdp) {
+						x.neg = mcRdpNeg(x.flags, x.protos|[]uint32{0x20, 0x100, 0x10000, 0x80000000}[r.Intn(4)])
+					})
 					mut("negreq hybrid without ssl", func(x *mcRdp) { x.neg = mcRdpNeg(x.flags, (x.protos|2)&^1) })
 					mut("negreq hybrid_ex without hybrid", func(x *mcRdp) { x.neg = mcRdpNeg(x.flags, (x.protos|8)&^2) })
 					if m.hasCo {
@@ -744,6 +755,117 @@ func mcRunRdpC14(e *mcEnv) {
 					tm("cookie port above 2^16", []byte(fmt.Sprintf("Cookie: msts=%d.65536.0000\r\n", ipNum)), nil)
 				}
 			}
+		}
+	}
+}
+
+// every value 0..255 of each fixed / flag / enum byte of a connection request (no filters configured):
+// the reference says which values the wire definition allows
+func mcRunRdpSweep(e *mcEnv, cf *mcRdpCfg) {
+	r := e.rng
+	for _, withCookie := range []bool{false, true} {
+		if withCookie && !vThorough() {
+			continue
+		}
+		base := func() *mcRdp {
+			m := &mcRdp{ver: 3, tc: 0xE0}
+			if withCookie {
+				m.kind, m.hash = rdCookie, []byte("abcd")
+				m.routing = mcRdpCookie(m.hash)
+			}
+			m.hasNeg, m.flags, m.protos = true, 0, 3
+			m.neg = mcRdpNeg(0, 3)
+			return m
+		}
+		id := mcRdpID(r)
+		try := func(m *mcRdp, ok bool, what string, v int) {
+			exp := mcNotYes
+			if ok {
+				exp = mcYes
+			}
+			mcRef(e, cf.mt, m.encode(), exp, "sweep:"+what, fmt.Sprintf("%s = %#02x", what, v), "", "")
+		}
+		for v := 0; v < 256; v++ {
+			b := byte(v)
+			m := base()
+			m.ver = b
+			try(m, b == 3, "tpkt version", v)
+			m = base()
+			m.rsv = b
+			try(m, b == 0, "tpkt reserved", v)
+			m = base()
+			m.tc = b
+			try(m, b == 0xE0, "x224 type/credit", v)
+			m = base()
+			m.dst = uint16(b) << 8
+			try(m, b == 0, "x224 dst-ref high byte", v)
+			m = base()
+			m.dst = uint16(b)
+			try(m, b == 0, "x224 dst-ref low byte", v)
+			m = base()
+			m.src = uint16(b) << 8
+			try(m, b == 0, "x224 src-ref high byte", v)
+			m = base()
+			m.src = uint16(b)
+			try(m, b == 0, "x224 src-ref low byte", v)
+			m = base()
+			m.cls = b
+			try(m, b == 0, "x224 class options", v)
+			// negotiation request: type, flags (with the correlation info present iff its flag is set), length, protocols
+			m = base()
+			m.neg[0] = b
+			try(m, b == 1, "negreq type", v)
+			m = base()
+			m.neg = mcRdpNeg(b, 3)
+			if b&8 != 0 {
+				m.corr = mcRdpCorr(id)
+			}
+			try(m, b&^0x0B == 0, "negreq flags", v)
+			m = base()
+			m.neg = mcRdpNeg(b, 3) // the flag byte without / with a correlation info it does not announce
+			if b&8 == 0 {
+				m.corr = mcRdpCorr(id)
+			}
+			try(m, false, "negreq flags with the correlation info presence inverted", v)
+			m = base()
+			m.neg[2] = b
+			try(m, b == 8, "negreq length low byte", v)
+			m = base()
+			m.neg[3] = b
+			try(m, b == 0, "negreq length high byte", v)
+			for i := 0; i < 4; i++ {
+				m = base()
+				p := uint32(b) << (8 * i)
+				m.neg = mcRdpNeg(0, p)
+				ok := p < 32 && !(p&8 != 0 && p&2 == 0) && !(p&2 != 0 && p&1 == 0)
+				try(m, ok, fmt.Sprintf("negreq protocols byte %d", i), v)
+			}
+			// correlation info fixed bytes
+			m = base()
+			m.neg = mcRdpNeg(8, 3)
+			m.corr = mcRdpCorr(id)
+			m.corr[0] = b
+			try(m, b == 6, "correlation info type", v)
+			m = base()
+			m.neg = mcRdpNeg(8, 3)
+			m.corr = mcRdpCorr(id)
+			m.corr[1] = b
+			try(m, b == 0, "correlation info flags", v)
+			m = base()
+			m.neg = mcRdpNeg(8, 3)
+			m.corr = mcRdpCorr(id)
+			m.corr[2] = b
+			try(m, b == 36, "correlation info length low byte", v)
+			m = base()
+			m.neg = mcRdpNeg(8, 3)
+			m.corr = mcRdpCorr(id)
+			m.corr[4] = b
+			try(m, b != 0 && b != 0xF4 && b != 0x0D, "correlation info identity first byte", v)
+			m = base()
+			m.neg = mcRdpNeg(8, 3)
+			m.corr = mcRdpCorr(id)
+			m.corr[20+v%16] = b
+			try(m, b == 0, "correlation info reserved byte", v)
 		}
 	}
 }
